@@ -256,7 +256,8 @@ func taskrunEngine(raw json.RawMessage) (res interface{}, err error) {
 				for k, s := range stages {
 					fin = append(fin, int(s.ReadStatus()))
 					t := s.Task
-					r := trResult{Step: si, Task: st.Stages[k].Task, Err: t.Errored, Errored: t.Errored, Skipped: t.Skipped, ExitCode: int(t.ExitCode),
+					// the error Run returned to the stage goroutine shows as the stage's status
+					r := trResult{Step: si, Task: st.Stages[k].Task, Err: s.ReadStatus() == scheduler.StatusError, Errored: t.Errored, Skipped: t.Skipped, ExitCode: int(t.ExitCode),
 						Output: base64.StdEncoding.EncodeToString([]byte(t.Output()))}
 					obs.Results = append(obs.Results, r)
 				}
